@@ -20,6 +20,9 @@ func (x *Exec) stdlib(s *State, in *ssa.Call, f *ssa.Function, args []Val) Val {
 	res := f.Signature.Results()
 	fresh := func() Val { return x.resultVal(s, in, res) }
 	sfun := func(fn string, ret Sort, as ...T) T {
+		if _, declared := x.p.Theory.Funs[fn]; declared {
+			return mk(ret, fn, as...)
+		}
 		sig := "("
 		for i, a := range as {
 			if i > 0 {
@@ -57,8 +60,8 @@ func (x *Exec) stdlib(s *State, in *ssa.Call, f *ssa.Function, args []Val) Val {
 	case "strconv.ParseFloat":
 		// deterministic (value, ok) function of the string
 		str := args[0].T
-		v := sfun("parsefloat.val_", SFloat, str)
-		ok := sfun("parsefloat.ok_", SBool, str)
+		v := sfun("parsefloat_val", SFloat, str)
+		ok := sfun("parsefloat_ok", SBool, str)
 		errv := x.fresh(s, "perr", SIface)
 		s.assume(mk(SBool, "=", ok, Eq(errv, T{"inil", SIface})))
 		s.assume(Implies(ok, Not(mk(SBool, "fp.isNaN", v)))) // a successful parse of "NaN" is excluded by assumption
